@@ -62,7 +62,10 @@ ENGINE_PROGS = [
     "main=listen,peer:1,peer:2,waitn:2,setflag:g,stop ; a=waitflag:g,send:1:10,close:1,send:2:5 ; b=waitflag:g,connect,send:0:3,close:0",
     "main=listen,setflag:g,connect,connect,stop ; a=waitflag:g,connect,send:0:4,close:0,connect ; b=waitflag:g,listen,connect",
     "main=listen,peer:1,waitn:1,setflag:g,psend:1:8,stop ; a=waitflag:g,stop ; b=waitflag:g,send:1:3,close:1",
-    "main=listen,connect,waitn:1,setflag:g,stop,start,listen,connect,waitn:2,stop ; a=waitflag:g,send:1:3,send:2:3,close:1",
+    # (waitn counts every announcement since the beginning: the second cycle waits for ITS sessions and uses them, so that events
+    # are dispatched on the descriptors the restarted engine has just been given)
+    "main=listen,connect,waitn:2,setflag:g,stop,start,listen,connect,waitn:4,send:0:5,send:4:3,waitflag:h,stop ; a=waitflag:g,send:1:3,send:2:3,close:1,setflag:h",
+    "main=listen,peer:1,connect,waitn:3,stop,start,listen,peer:2,connect,waitn:6,psend:2:4,send:0:6,close:0,stop,start,listen,connect,waitn:8,stop",
     "main=listen,peer:1,waitn:1,cbdrop,psend:1:4",
     "main=listen,peer:1,peer:2,waitn:2,cbdrop,pclose:1",
     "main=listen,connect,waitn:1,setflag:g,drop ; a=waitflag:g,send:1:5,close:2,drop ; b=waitflag:g,connect,drop",
@@ -145,7 +148,7 @@ def engine_part(ck, thorough):
     tc.run_cases(ck, lines, "engine_random", engine_nontrivial, **kw)
     tc.run_cases(ck, lines[::3], "engine_asan", engine_nontrivial, variant=".asan", **kw)
     tc.run_cases(ck, lines[1::3], "engine_tsan", engine_nontrivial, variant=".tsan", **kw)
-    for j, (proto, pi) in enumerate([("tcp", 1), ("udp", 7), ("tcp", 12)] if not thorough else [("tcp", 1), ("udp", 7), ("tcp", 12), ("tcp", 2), ("tcpb", 0), ("udp", 3), ("tcp", 7), ("udp", 9), ("tcp", 10), ("tcp", 11)]):
+    for j, (proto, pi) in enumerate([("tcp", 1), ("udp", 8), ("tcp", 13)] if not thorough else [("tcp", 1), ("udp", 8), ("tcp", 13), ("tcp", 2), ("tcpb", 0), ("udp", 3), ("tcp", 8), ("udp", 10), ("tcp", 11), ("tcp", 12), ("tcp", 4)]):
         tc.run_dfs(ck, "%s | %s" % (proto, ENGINE_PROGS[pi]), 1 if not thorough else 2, 5000 if thorough else 500, "engine_dfs%d" % j, engine_nontrivial, **kw)
 
 
